@@ -271,6 +271,16 @@ def execute(case, stats):
         _, end_pos = tlv.decode(block, with_end=True)
         if end_pos is not None:
             eq(stream.tell(), off + end_pos, "decode:stream_end_position", f"position after decoding a terminated block that starts at offset {off}")
+        # the same through a buffered reader (what open(path, "rb") returns); a small buffer puts its refill boundaries at
+        # every kind of place - inside a record header, inside a value, between the two bytes of the terminator
+        data_ = stream.getvalue()
+        for bs in (2 + (len(data_) % 7) * 3, 16):
+            buffered = io.BufferedReader(io.BytesIO(data_), buffer_size=bs)
+            buffered.seek(off)
+            got_b = lib(lambda: [(s.index.value, s.type.value, s.length, bytes(s.value)) for s in iter_settings(buffered)], what=f"iter_settings(BufferedReader, buffer_size={bs})")
+            eq(got_b, ref, "decode:buffered_stream", f"iter_settings on a BufferedReader (buffer_size={bs}) positioned at offset {off} of {len(data_)} bytes")
+            if end_pos is not None:
+                eq(buffered.tell(), off + end_pos, "decode:buffered_end_position", f"position of the BufferedReader (buffer_size={bs}) after a terminated block that starts at offset {off}")
     # read-only views are cached: same object on re-access
     check(c.settings is views["settings"] and c.raw_settings is views["raw_settings"], "views:not_cached", "views must be cached")
     nrec = len(ref)
